@@ -26,6 +26,7 @@ EXPLANATION = (
     "tag in all three modes and sets from_attributes only for 'attributes'; R03.5 every validator path returns its "
     "value or raises ValueError/AssertionError; R03.6 every point of the five point-sequence types is unpacked into exactly "
     "two names (or its length is checked). pydantic's coercion, nesting-shape rejection and JSON dump are trusted."
+    'R03.7 no class of the geometry hierarchy installs a serializer (the JSON dump is the validated coordinates); R03.8 every constant subscript of the coordinates in a validator is covered by a length established earlier on the same path or by an earlier validator (an unpack into names counts): short input is rejected with a validation error, never IndexError. '
 )
 ASSUMPTIONS = [
     "pydantic runs every @field_validator('coordinates') in after mode on coerced floats and converts ValueError / AssertionError (trusted)",
